@@ -112,3 +112,25 @@ func hookEnvelope(ev *psatoken.Evidence) (present bool, protContent, payload, si
 	}
 	return true, protContent, payload, sig, nil
 }
+
+// maybeExt turns (with probability 1/den) an abstract claims-set whose profile
+// claim is canonical (or, for profile 1, absent) into the same set of the
+// extension profile built on that base: same rules, other canonical name.
+func maybeExt(g *model.Gen, a *model.Claims, den int) string {
+	if g.R.Intn(den) != 0 {
+		return ""
+	}
+	canonical := a.Profile != nil && *a.Profile == a.Canon
+	switch {
+	case a.P == 2 && canonical && a.Canon == model.P2Name:
+		a.Canon, a.Profile = extprof.ExtP2Name, model.SP(extprof.ExtP2Name)
+		return "|ext"
+	case a.P == 1 && a.Canon == model.P1Name && (canonical || a.Profile == nil):
+		a.Canon = extprof.ExtP1Name
+		if a.Profile != nil {
+			a.Profile = model.SP(extprof.ExtP1Name)
+		}
+		return "|ext"
+	}
+	return ""
+}
